@@ -26,7 +26,8 @@ def main():
     for p in sorted(glob.glob("/verif/seeded/*/patch.diff")):
         d = os.path.dirname(p)
         meta = json.load(open(os.path.join(d, "meta.json")))
-        items.append(("seeded-" + os.path.basename(d), p, meta["breaks"]))
+        rebased = os.path.join(d, "patch.rebased.diff")
+        items.append(("seeded-" + os.path.basename(d), rebased if os.path.exists(rebased) else p, meta["breaks"]))
     if args:
         items = [it for it in items if any(a in it[0] for a in args)]
     assert sh("git -C /repo status --porcelain").stdout.strip() == "", "/repo is not clean"
